@@ -317,7 +317,7 @@ func main() {
 		if x.status == -1 {
 			continue
 		}
-		run.Add("slow-upstream", vh.App("CServe", vh.Z(x.s.limit), vh.Z(x.s.delay), vh.Z(int64(x.ust)), vh.Z(int64(x.status)), vh.Z(x.elapsed), vh.Z(1500)),
+		run.Add("slow-upstream", vh.App("CServe", vh.Z(x.s.limit), vh.Z(x.s.delay), vh.Z(int64(x.ust)), vh.Z(int64(x.status)), vh.Z(x.elapsed), vh.Z(3000)),
 			map[string]interface{}{"limit_ms": x.s.limit, "delay_ms": x.s.delay, "upstream_status": x.ust, "client_status": x.status, "elapsed_ms": x.elapsed})
 	}
 	run.Finish(preamble, run.Scale(40, 400))
